@@ -238,6 +238,14 @@ JudgeC16KV(g) ==
           \cup (IF shapeOK /\ ~idsOK THEN {"C16.keyvalue-ids"} ELSE {})
           \cup (IF a = b THEN {} ELSE {"C16.keyvalue-unstable"})
 
+(* any query ending in .keyvalue(), executed twice on one document instance: *)
+(* only triples come out and they are identical both times (stable ids)      *)
+JudgeC16KVStable(g) ==
+  LET a == g.runs[1].q  b == g.runs[2].q
+  IN IF Broken(g.runs[1]) \/ Broken(g.runs[2]) THEN {}
+     ELSE (IF a = b THEN {} ELSE {"C16.keyvalue-unstable"})
+          \cup (IF \A i \in 1..Len(a.items) : IsTriple(a.items[i]) THEN {} ELSE {"C16.keyvalue-triples"})
+
 JudgeGroup(g) ==
   CASE g.kind = "C10"      -> Loosen(g, JudgeC10(g), "C10")
     [] g.kind = "C10conj"  -> Loosen(g, JudgeC10Conj(g), "C10")
@@ -248,4 +256,5 @@ JudgeGroup(g) ==
     [] g.kind = "C11filter" -> Loosen(g, JudgeC11Filter(g), "C11")
     [] g.kind = "C16str" -> JudgeC16Str(g)
     [] g.kind = "C16kv" -> JudgeC16KV(g)
+    [] g.kind = "C16kvstable" -> JudgeC16KVStable(g)
 =============================================================================
